@@ -205,7 +205,9 @@ func genOps(prop string, r *Rng, n int, tier string, emit func(string)) {
 		for i := 0; i < n; i++ {
 			k := allKinds[r.Intn(len(allKinds))]
 			p := genValue(r, k, prop == "C02" && r.Chance(1, 7))
-			switch r.Intn(6) {
+			switch r.Intn(7) {
+			case 6: // own decoder round trip
+				emit(opWith("rto", p))
 			case 0:
 				emit(encOp(p))
 			case 1: // own decoder on own output
@@ -227,6 +229,19 @@ func genOps(prop string, r *Rng, n int, tier string, emit func(string)) {
 				emit("reenc " + hx(f))
 			}
 		}
+		if prop == "C02" {
+			for _, k := range bigKinds {
+				// the model's CCFB/XR decoders index lists (quadratic on 100 KiB inputs): thorough tier only
+				slow := k == "CCFB" || k == "XR"
+				if thorough || (!slow && r.Chance(1, 3)) {
+					p := genBig(r, k)
+					emit(opWith("rto", p))
+					if !slow {
+						emit("rt 1 " + packetTokens(p))
+					}
+				}
+			}
+		}
 		if thorough {
 			for _, sz := range []int{65536, 65540, 131072, 262140} {
 				for _, pf := range [][2]int{{205, 11}, {207, 0}, {202, 0}, {200, 0}, {201, 0}, {204, 0}, {199, 0}} {
@@ -244,9 +259,18 @@ func genOps(prop string, r *Rng, n int, tier string, emit func(string)) {
 			k := allKinds[r.Intn(len(allKinds))]
 			emit(opWith("encspec", genValue(r, k, false)))
 		}
+		for _, k := range bigKinds {
+			if thorough || r.Chance(1, 3) {
+				emit(opWith("encspec", genBig(r, k)))
+			}
+		}
 	case "C04":
 		for i := 0; i < n; i++ {
-			emit(genVariantOp(r))
+			if r.Chance(1, 3) {
+				emit(genDecvOp(r))
+			} else {
+				emit(genVariantOp(r))
+			}
 		}
 	case "C05":
 		for i := 0; i < n; i++ {
@@ -277,6 +301,29 @@ func genOps(prop string, r *Rng, n int, tier string, emit func(string)) {
 				}
 			}
 		}
+		reps := 1
+		if thorough {
+			reps = 4
+		}
+		for ; reps > 0; reps-- {
+			for _, k := range bigKinds {
+				p := genBig(r, k)
+				emit(opWith("framed", p))
+				if contains(hdrKinds, k) {
+					emit(opWith("hdr", p))
+				}
+				if k == "TWCC" || k == "CCFB" {
+					emit(opWith("len", p))
+				}
+			}
+			for _, k := range wrapKinds {
+				for j := 0; j < 4; j++ {
+					p := genCountWrap(r, k)
+					emit(opWith("framed", p))
+					emit(opWith("hdr", p))
+				}
+			}
+		}
 	case "C06":
 		for i := 0; i < n; i++ {
 			d := genDatagram(r)
@@ -290,6 +337,9 @@ func genOps(prop string, r *Rng, n int, tier string, emit func(string)) {
 				emit("udec " + hx(a))
 				emit("udec " + hx(b))
 				emit("udec " + hx(append(append([]byte{}, a...), b...)))
+			}
+			if r.Chance(1, 3) {
+				emit("concat " + hx(genDatagram(r)) + " " + hx(genDatagram(r)))
 			}
 		}
 	case "C07":
@@ -313,6 +363,9 @@ func genOps(prop string, r *Rng, n int, tier string, emit func(string)) {
 			if r.Chance(1, 3) {
 				emit("udec " + hx(validFrame(r, u)))
 			}
+			if r.Chance(1, 4) {
+				emit("rt 1 " + packetTokens(genValue(r, allKinds[r.Intn(len(allKinds))], false)))
+			}
 		}
 	case "C08":
 		for i := 0; i < n; i++ {
@@ -321,6 +374,16 @@ func genOps(prop string, r *Rng, n int, tier string, emit func(string)) {
 		}
 		for _, op := range boundaryOps() {
 			emit(op)
+		}
+		for _, k := range wrapKinds {
+			for j := 0; j < 6; j++ {
+				emit(encOp(genCountWrap(r, k)))
+			}
+		}
+		for _, k := range bigKinds {
+			if thorough || r.Chance(1, 2) {
+				emit(encOp(genBig(r, k)))
+			}
 		}
 	case "C10":
 		for i := 0; i < n; i++ {
@@ -489,7 +552,12 @@ func genOps(prop string, r *Rng, n int, tier string, emit func(string)) {
 			case 9:
 				emit(fmt.Sprintf("xrchunk %d", r.Bits(16, 16)))
 			case 10:
-				emit("rt 1 " + packetTokens(genValue(r, []string{"NACK", "SLI", "FIR"}[r.Intn(3)], false)))
+				p := genValue(r, []string{"NACK", "SLI", "FIR"}[r.Intn(3)], false)
+				if r.Bool() {
+					emit("rt 1 " + packetTokens(p))
+				} else {
+					emit(opWith("rto", p))
+				}
 			case 11:
 				switch r.Intn(4) {
 				case 0:
